@@ -24,7 +24,13 @@ Adopt(store, od, chg) ==
 
 SStep(st, e, t) ==
     LET od == t.od
-        j == SrvJudge(st.sv, st.buf, od, st.store, e.q, e.r)
+        j0 == SrvJudge(st.sv, st.buf, od, st.store, e.q, e.r)
+        \* a frame shorter than 8 bytes that the server answers like its zero-padded 8-byte form is
+        \* judged as that form (reading a short frame leniently is not forbidden; what the answer and
+        \* the store must then be is what the padded frame demands)
+        q8 == e.q \o [i \in 1..(8 - Len(e.q)) |-> 0]
+        j8 == SrvJudge(st.sv, st.buf, od, st.store, q8, e.r)
+        j == IF Len(e.q) \in 1..7 /\ j8.ok /\ ~j8.free THEN j8 ELSE j0
     IN IF e.e # "rq" THEN Bad(st, "unknown event")
        ELSE IF e.exc # 0 THEN Bad(st, "server raised into the receive path")
        ELSE IF ~j.ok THEN Bad(st, j.why)
